@@ -199,10 +199,11 @@ func TestFSnapChild(t *testing.T) {
 // ---------- parent: strace log ----------
 
 type sysEv struct {
-	kind   string // write / fsync / rename / unlink / rmdir / create / marker
+	kind   string // write / fsync / rename / unlink / rmdir / create / mkdir / marker
 	path   string
 	path2  string
 	marker int
+	n      int // bytes written
 }
 
 var (
@@ -210,6 +211,8 @@ var (
 	reRename = regexp.MustCompile(`^\d+\s+rename(?:at2?)?\((?:AT_FDCWD(?:<[^>]*>)?, )?"([^"]*)", (?:AT_FDCWD(?:<[^>]*>)?, )?"([^"]*)"`)
 	reUnlink = regexp.MustCompile(`^\d+\s+unlinkat\((?:AT_FDCWD(?:<[^>]*>)?|\d+<([^>]*)>), "([^"]*)", (\w+)`)
 	reOpen   = regexp.MustCompile(`^\d+\s+openat\(AT_FDCWD(?:<[^>]*>)?, "([^"]*)", ([A-Z_|]+)`)
+	reMkdir  = regexp.MustCompile(`^\d+\s+mkdir(?:at)?\((?:AT_FDCWD(?:<[^>]*>)?, )?"([^"]*)"`)
+	reWrSize = regexp.MustCompile(`\) = (\d+)`)
 	reMark   = regexp.MustCompile(`faccessat2?\(AT_FDCWD(?:<[^>]*>)?, "/rv-marker/(\d+)"`)
 )
 
@@ -238,7 +241,13 @@ func parseStrace(path string) ([]sysEv, error) {
 			if k == "fdatasync" {
 				k = "fsync"
 			}
-			out = append(out, sysEv{kind: k, path: m[3]})
+			ev := sysEv{kind: k, path: m[3]}
+			if k == "write" {
+				if w := reWrSize.FindStringSubmatch(line); w != nil {
+					ev.n, _ = strconv.Atoi(w[1])
+				}
+			}
+			out = append(out, ev)
 		} else if m := reRename.FindStringSubmatch(line); m != nil {
 			out = append(out, sysEv{kind: "rename", path: m[1], path2: m[2]})
 		} else if m := reUnlink.FindStringSubmatch(line); m != nil {
@@ -253,6 +262,8 @@ func parseStrace(path string) ([]sysEv, error) {
 			out = append(out, sysEv{kind: k, path: p})
 		} else if m := reOpen.FindStringSubmatch(line); m != nil && strings.Contains(m[2], "O_CREAT") {
 			out = append(out, sysEv{kind: "create", path: m[1]})
+		} else if m := reMkdir.FindStringSubmatch(line); m != nil {
+			out = append(out, sysEv{kind: "mkdir", path: m[1]})
 		}
 	}
 	return out, sc.Err()
@@ -419,7 +430,7 @@ func runHistory(t *testing.T, col *table.Collector, root string, seed int64, k i
 	hb, _ := json.Marshal(h)
 	os.WriteFile(filepath.Join(work, "history.json"), hb, 0o644)
 	stlog := filepath.Join(work, "strace.log")
-	cmd := exec.Command("strace", "-f", "-y", "-s", "0", "-o", stlog, "-e", "trace=write,fsync,fdatasync,rename,renameat,renameat2,unlinkat,openat,faccessat,faccessat2",
+	cmd := exec.Command("strace", "-f", "-y", "-s", "0", "-o", stlog, "-e", "trace=write,fsync,fdatasync,rename,renameat,renameat2,unlinkat,openat,mkdir,mkdirat,faccessat,faccessat2",
 		os.Args[0], "-test.run", "^TestFSnapChild$")
 	cmd.Env = append(os.Environ(), "FSNAP_WORK="+work, "FSNAP_SEED="+strconv.FormatInt(seed*1000+int64(k), 10))
 	if out, err := cmd.CombinedOutput(); err != nil {
@@ -536,12 +547,121 @@ func runHistory(t *testing.T, col *table.Collector, root string, seed int64, k i
 			}
 		}
 	}
+	// (c) crash points at every system-call boundary between two hook images,
+	// so that a reordering of the file-system steps cannot hide between hooks
+	interpolate(col, work, snapDir, evs, images, k)
 	// corruption of final images
 	if len(images) > 0 {
 		last := images[len(images)-1]
 		img := filepath.Join(work, "images", strconv.Itoa(last.N))
 		corrupt(col, rng, work, img, last)
 	}
+}
+
+// interpolate rebuilds the directory after every state-changing system call
+// between consecutive hook images (file contents are taken from the later
+// image: within one window a file is only appended to) and checks each.
+func interpolate(col *table.Collector, work, snapDir string, evs []sysEv, images []imageFact, k int) {
+	byN := map[int]imageFact{}
+	for _, im := range images {
+		byN[im.N] = im
+	}
+	cur := 0 // marker number of the last image passed
+	var window []sysEv
+	rel := func(p string) (string, bool) {
+		if !strings.HasPrefix(p, snapDir+"/") {
+			return "", false
+		}
+		return strings.TrimPrefix(p, snapDir+"/"), true
+	}
+	for _, e := range evs {
+		if e.kind != "marker" {
+			if cur > 0 {
+				window = append(window, e)
+			}
+			continue
+		}
+		next := e.marker
+		if cur > 0 && len(window) > 1 {
+			from := filepath.Join(work, "images", strconv.Itoa(cur))
+			to := filepath.Join(work, "images", strconv.Itoa(next))
+			mat := filepath.Join(work, "mat")
+			os.RemoveAll(mat)
+			root := filepath.Join(mat, "base", "snapshots")
+			copyTree(from, root)
+			os.MkdirAll(root, 0o755)
+			wrote := map[string]int{} // bytes appended per file in this window
+			nw := map[string]int{}
+			for _, w := range window {
+				if w.kind == "write" {
+					nw[w.path]++
+				}
+			}
+			seenW := map[string]int{}
+			for i, w := range window {
+				changed := false
+				switch w.kind {
+				case "mkdir":
+					if r, ok := rel(w.path); ok {
+						os.MkdirAll(filepath.Join(root, r), 0o755)
+						changed = true
+					}
+				case "create":
+					if r, ok := rel(w.path); ok {
+						os.MkdirAll(filepath.Dir(filepath.Join(root, r)), 0o755)
+						os.WriteFile(filepath.Join(root, r), nil, 0o644)
+						wrote[w.path] = 0
+						changed = true
+					}
+				case "write":
+					if r, ok := rel(w.path); ok {
+						wrote[w.path] += w.n
+						seenW[w.path]++
+						// content: prefix of what the file holds in the later image (the
+						// directory may have been renamed within the window)
+						final, err := os.ReadFile(filepath.Join(to, r))
+						if err != nil {
+							final, _ = os.ReadFile(filepath.Join(to, strings.Replace(r, ".tmp/", "/", 1)))
+						}
+						nn := wrote[w.path]
+						if nn > len(final) {
+							nn = len(final)
+						}
+						os.WriteFile(filepath.Join(root, r), final[:nn], 0o644)
+						// large files are written in many small pieces: look at the first, a middle and the last
+						c := seenW[w.path]
+						changed = c == 1 || c == nw[w.path] || c == nw[w.path]/2
+					}
+				case "rename":
+					r1, ok1 := rel(w.path)
+					r2, ok2 := rel(w.path2)
+					if ok1 && ok2 {
+						os.Rename(filepath.Join(root, r1), filepath.Join(root, r2))
+						for p, n := range wrote {
+							if strings.HasPrefix(p, w.path+"/") {
+								wrote[w.path2+strings.TrimPrefix(p, w.path)] = n
+							}
+						}
+						changed = true
+					}
+				case "unlink", "rmdir":
+					if r, ok := rel(w.path); ok {
+						os.Remove(filepath.Join(root, r))
+						changed = true
+					}
+				}
+				if changed && i < len(window)-1 {
+					im := byN[cur]
+					im.Point = fmt.Sprintf("after %s #%d of the window following hook %s", w.kind, i+1, byN[cur].Point)
+					checkImage(col, mat, im, "syscall-boundary", nil)
+					col.Cov("images-at-syscall-boundaries", 1)
+				}
+			}
+		}
+		cur = next
+		window = window[:0]
+	}
+	_ = k
 }
 
 func keys2(m map[string]bool) []string {
